@@ -231,3 +231,53 @@ Definition check_getitem (descs : list (bdesc xv)) (data : list (list (index * x
            (filter (fun c => existsb (Nat.eqb (fst c)) log_sids) (eval_calls w)) exp_calls
       && forallb (fun sk => keyset_eqb (keys (wcache w (fst sk))) (snd sk)) exp_keys
   end.
+
+(* ---- further checks for k_cauchydot -------------------------------------- *)
+
+(* the product series built by cauchy_dot_product: shape, n_infinite, dimension_names *)
+Definition check_cdp_head (base : list (sdesc m2)) (factors : list sid) (herm : bool)
+           (r c n : nat) (names : list nat) : bool :=
+  match cauchy_dot_product base factors herm with
+  | None => false
+  | Some (descs, p) =>
+      let h := head_at descs p in
+      Nat.eqb (rows h) r && Nat.eqb (cols h) c && Nat.eqb (ninf h) n && natlist_eqb (dnames h) names
+  end.
+
+(* product_by_order(index, first, second, hermitian=herm) called directly (operator=None) on the
+   base series 0 and 1 *)
+Definition check_pbo (base : list (sdesc m2)) (data : list (list (index * sv))) (fuel : nat)
+           (herm : bool) (start end_ : nat) (orders : list nat)
+           (exp : res pyerr sv)
+           (exp_calls : list (sid * index))
+           (exp_keys : list (sid * list index)) : bool :=
+  let g := cdp_getitem m2add m2mul m2adj base fuel in
+  match product_by_order m2add m2mul m2adj
+          (fun i w => wcontains sv_is_zero w 0%nat i) (fun i w => wcontains sv_is_zero w 1%nat i)
+          (g 0%nat) (g 1%nat) herm (cols (head_at base 0%nat)) start end_ orders (init_world data) with
+  | (r, w) =>
+      res_eqb sv_eqb r exp
+      && list_eqb call_eqb (eval_calls w) exp_calls
+      && forallb (fun sk => keyset_eqb (keys (wcache w (fst sk))) (snd sk)) exp_keys
+  end.
+
+(* sentinel arithmetic of Sentinel.v against the Python operators *)
+Inductive sop : Type := OpAdd | OpSub | OpNeg | OpDagger.
+
+Definition sres_eqb (a b : sres m2) : bool :=
+  match a, b with
+  | SOk x, SOk y => sv_eqb x y
+  | SErr x, SErr y => pyerr_eqb x y
+  | _, _ => false
+  end.
+
+Definition m2neg (x : m2) : m2 :=
+  let n := fun g : gz => (- fst g, - snd g) in M2 (n (m00 x)) (n (m01 x)) (n (m10 x)) (n (m11 x)).
+
+Definition check_sop (op : sop) (x y : sv) (exp : sres m2) : bool :=
+  sres_eqb (match op with
+            | OpAdd => py_add m2add x y
+            | OpSub => py_sub m2add m2neg x y
+            | OpNeg => py_neg m2neg x
+            | OpDagger => py_dagger m2adj x
+            end) exp.
